@@ -30,7 +30,8 @@ def cases(tier, seed):
                 for kb in (0, 1, None):
                     sc = T.gen_scenario(rng, N * P, epochs=2, ops_per_rank=rng.choice([3, 6]), ttl=2, maxfan=2, hprog=15, hcb=5, hbc=5,
                                         p_bcast=8, p_mcast=6, sizes=(0, 8, 100, 600, 1500, 40000),
-                                        fstate=1 if rng.below(3) == 0 else 0, subcomm=1 if rng.below(4) == 0 else 0)
+                                        fstate=1 if rng.below(3) == 0 else 0, subcomm=1 if rng.below(4) == 0 else 0,
+                                        other=rng.choice([0, 0, 0, 50]))
                     out.append((sc, T.Config(N, P, routing, kb, irecvs=rng.choice([1, 2, 8]), isends_wait=rng.choice([0, 1, 4]),
                                              issend=rng.choice([0, 1, 8]), policy=rng.choice(T.POLICIES), eager=rng.choice([0, 50, 100]),
                                              sim_seed=rng.below(1 << 30))))
